@@ -83,7 +83,7 @@ def idx(events, pred):
 # _write
 
 
-@oset("socket._write", ["C01", "C03", "C07"], [F_WRITE])
+@oset("socket._write", ["C01", "C02", "C03", "C07", "C16"], [F_WRITE])
 def write_contract(h):
     """Either nothing is written (not connected / unencodable) or exactly the three parts of this
     message's frame are handed to the current writer back-to-back in one atomic segment."""
@@ -135,7 +135,7 @@ def _install_write_contract(W, sock, log):
     stub_async(W, F_WRITE, "_write", [None, "OSError", "ConnectionResetError"] + ENCODE_EXCEPTIONS, needs)
 
 
-@oset("socket._drain_message_queue.not-connected", ["C01", "C02"], [F_DRAIN])
+@oset("socket._drain_message_queue.not-connected", ["C01", "C02", "C16"], [F_DRAIN])
 def drain_not_connected(h):
     if not h.symbolic:
         return
@@ -244,7 +244,7 @@ def _drain_obligations(h, W, sock, e, rest, log, r, now0, first):
     h.cover("drain iteration explored")
 
 
-@oset("socket._drain_message_queue.first-iteration", ["C01", "C02", "C07"], [F_DRAIN])
+@oset("socket._drain_message_queue.first-iteration", ["C01", "C02", "C07", "C16"], [F_DRAIN])
 def drain_first(h):
     if not h.symbolic:
         from replay.sock_scenarios import run_library
@@ -253,7 +253,7 @@ def drain_first(h):
     _drain_obligations(h, W, sock, e, rest, log, r, now0, True)
 
 
-@oset("socket._drain_message_queue.later-iteration", ["C01", "C02", "C07"], [F_DRAIN])
+@oset("socket._drain_message_queue.later-iteration", ["C01", "C02", "C07", "C16"], [F_DRAIN])
 def drain_later(h):
     """An iteration entered after a suspension in an earlier one: the link may be gone by then."""
     if not h.symbolic:
